@@ -18,45 +18,22 @@ pub fn grow_unreachable(
     Err(AllocError)
 }
 
-/// Byte sizes of vectors that must never grow (stacks with reserved capacity): growth from a buffer
-/// of one of these sizes is cut like in `grow_unreachable`.
-pub static mut NOGROW_SIZES: [usize; 3] = [0; 3];
+/// (old size, new size) pairs of the growth steps the current harness admits, e.g. (24, 96): a
+/// one-element index vector grows to capacity four. Written with constants at the start of a
+/// harness; every branch of the model then allocates and copies a constant number of bytes (a
+/// `memcpy` of symbolic length is encoded with unbounded arrays by CBMC).
+pub static mut GROW_PAIRS: [(usize, usize); 4] = [(0, 0); 4];
 
-pub fn forbid_grow(slot: usize, bytes: usize) {
+pub fn allow_grow(slot: usize, old_bytes: usize, new_bytes: usize) {
     unsafe {
-        NOGROW_SIZES[slot] = bytes;
+        GROW_PAIRS[slot] = (old_bytes, new_bytes);
     }
-}
-
-/// byte copy whose length is a constant in every branch (a `memcpy` of symbolic length is encoded
-/// with unbounded arrays by CBMC; the old capacity of an index vector is 1 or 2 elements)
-unsafe fn copy_const(src: *const u8, dst: *mut u8, n: usize) {
-    macro_rules! c {
-        ($k:literal) => {
-            if n == $k {
-                unsafe { std::ptr::copy_nonoverlapping(src, dst, $k) };
-                return;
-            }
-        };
-    }
-    c!(8);
-    c!(16);
-    c!(24);
-    c!(32);
-    c!(40);
-    c!(48);
-    c!(64);
-    c!(72);
-    c!(80);
-    c!(96);
-    c!(160);
-    kani::assert(n == 0, "VERIF-BOUND: old buffer size outside the allocator model");
-    kani::assume(n == 0);
 }
 
 /// Allocator model for code that genuinely grows small vectors (the one- to three-element index
-/// vectors of `next_indices*`, the `vec![0]` stacks of `iter()`): a fresh block of exactly the
-/// requested size (one of a few constants) that holds the old bytes; the old block is released.
+/// vectors of `next_indices*`, the `vec![0]` stacks of `iter()`, the arena of a map built from
+/// `new()`): a fresh block of exactly the requested size that holds the old bytes; the old block
+/// is released. Growth steps the harness did not announce are checked bound violations.
 pub fn grow_model(
     _this: &Global,
     ptr: NonNull<u8>,
@@ -65,29 +42,25 @@ pub fn grow_model(
     _zeroed: bool,
 ) -> Result<NonNull<[u8]>, AllocError> {
     let os = old.size();
-    let forbidden = unsafe { os == NOGROW_SIZES[0] || os == NOGROW_SIZES[1] || os == NOGROW_SIZES[2] };
-    kani::assert(!forbidden, "VERIF-BOUND: Vec growth reached although capacity was reserved");
-    kani::assume(!forbidden);
     let ns = new.size();
-    macro_rules! exact {
-        ($k:literal) => {
-            if ns == $k && os <= $k {
+    macro_rules! pair {
+        ($i:literal) => {
+            let (o, n) = unsafe { GROW_PAIRS[$i] };
+            if n != 0 && os == o && ns == n {
                 unsafe {
-                    let blk = std::alloc::alloc(Layout::from_size_align_unchecked($k, 8));
-                    copy_const(ptr.as_ptr(), blk, os);
-                    std::alloc::dealloc(ptr.as_ptr(), old);
-                    return Ok(NonNull::slice_from_raw_parts(NonNull::new_unchecked(blk), $k));
+                    let blk = std::alloc::alloc(Layout::from_size_align_unchecked(n, 8));
+                    std::ptr::copy_nonoverlapping(ptr.as_ptr(), blk, o);
+                    std::alloc::dealloc(ptr.as_ptr(), Layout::from_size_align_unchecked(o, 8));
+                    return Ok(NonNull::slice_from_raw_parts(NonNull::new_unchecked(blk), n));
                 }
             }
         };
     }
-    exact!(32);
-    exact!(64);
-    exact!(96);
-    exact!(160);
-    exact!(192);
-    exact!(320);
-    kani::assert(false, "VERIF-BOUND: Vec growth beyond the allocator model");
+    pair!(0);
+    pair!(1);
+    pair!(2);
+    pair!(3);
+    kani::assert(false, "VERIF-BOUND: Vec growth step not announced by the harness (or capacity was reserved)");
     kani::assume(false);
     Err(AllocError)
 }
